@@ -52,12 +52,16 @@ type Report struct {
 	minInst    map[string]int
 	ruleText   map[string]string
 	ruleOrder  []string
+	borrowed   []string
 	Notes      []string
 	Fatal      []string // loader / anchor failures
 	Extra      map[string]any
 	Assume     []string
 	Explain    string
 	NotDecided []string
+	// Remap, when set, lets one property borrow the obligations of another property's rule function: it maps
+	// (rule, func, construct) to the borrowing rule id, or drops the obligation (keep == false).
+	Remap func(rule, fn, construct string) (string, bool)
 }
 
 func NewReport(prop, tier, verifDir string, seed int) *Report {
@@ -67,6 +71,15 @@ func NewReport(prop, tier, verifDir string, seed int) *Report {
 
 // Rule declares a rule, its text and the minimum number of instances confirmed by hand on the pinned tree.
 func (r *Report) Rule(id, text string, min int) {
+	if r.Remap != nil {
+		if _, declared := r.ruleText[id]; !declared {
+			// rules of the lending property are declared silently (no vacuity floor of their own)
+			r.ruleText[id] = text
+			r.minInst[id] = 0
+			r.borrowed = append(r.borrowed, id)
+		}
+		return
+	}
 	if _, ok := r.ruleText[id]; !ok {
 		r.ruleOrder = append(r.ruleOrder, id)
 	}
@@ -77,6 +90,13 @@ func (r *Report) Rule(id, text string, min int) {
 // Add records an obligation; ordinal is assigned per (rule,func,construct) in call order, so callers must
 // iterate sites in a deterministic (source) order.
 func (r *Report) Add(rule, fn, construct, pos, required, found string, ok bool) *Obligation {
+	if r.Remap != nil {
+		nr, keep := r.Remap(rule, fn, construct)
+		if !keep {
+			return &Obligation{}
+		}
+		rule = nr
+	}
 	if _, declared := r.ruleText[rule]; !declared {
 		panic("undeclared rule " + rule)
 	}
@@ -90,6 +110,13 @@ func (r *Report) Add(rule, fn, construct, pos, required, found string, ok bool) 
 
 // AnchorLost records that a mechanism the rule needs could not be located in the source.
 func (r *Report) AnchorLost(rule, anchor string) {
+	if r.Remap != nil {
+		nr, keep := r.Remap(rule, "", anchor)
+		if !keep {
+			return
+		}
+		rule = nr
+	}
 	r.Fatal = append(r.Fatal, fmt.Sprintf("ANCHOR-LOST rule=%s anchor=%s", rule, anchor))
 }
 
